@@ -3,6 +3,7 @@
     proofs in Proofs/OpsP.v.  [dict] (the data dictionary: tag -> exact VR) is universally
     quantified in every statement. *)
 From DicomV Require Import Base.Prelude Model.Ops Spec.OpsSpec Proofs.OpsP.
+From DicomV Require Model.Vr Model.Dataset Model.Writer Model.Reader Proofs.ReadStepsP Proofs.BuildTreeP Proofs.OpsRoundTripP.
 Open Scope N_scope.
 
 (** Refinement, one operation: on every well-formed object (tag order at every depth, which is the
@@ -64,11 +65,37 @@ Theorem C13_shape_refuted :
 Proof.
   exists w_dict, w_seq_obj, w_set_on_sq. destruct primitive_under_sq_witness as (H1 & H2 & _ & H4 & _). auto.
 Qed.
-(** Full statement of the last sentence of the property, NOT proved here (tested by the oracle on the
-    real writer/reader in four transfer syntaxes after every step; the byte-level writer and reader
-    belong to C01):
-      forall ops ts, shape_ok (apply_all dict ops []) -> values compatible with their VRs ->
-        read ts (write ts (apply_all dict ops [])) ~ apply_all dict ops []. *)
+(** Writing, part 3: the last sentence of the property, by composition with the data set round trip
+    proved for C01 ([Proofs/RoundTripTreeP.v]: [write_dataset], [read_dataset], [norm_tree] are the C01
+    owner's models of write_dataset_with_ts / read_dataset_with_ts and of the documented normalisations).
+    [tr_obj o' es]: [es] is the object [o'] in C01's representation (Proofs/OpsRoundTripP.v; recorded
+    lengths are arbitrary; Date/DateTime/Time values have no translation).
+    C13 supplies the STRUCTURE the round trip needs for every reachable object: tags ascending at every
+    depth, sequences under SQ, pixel fragments as (7FE0,0010) OB (the [wfo] and [kind_ok] invariants).
+    What remains a hypothesis, because attribute operations do not guarantee it: [values_ok] on the
+    result — every primitive value fits its VR, is ISO 8859-1 and fits the length field (C01's [elem_ok],
+    [rt_ok], [elem_writable]; this excludes the known class PrimitiveUnderSqVr), every sequence tag is an
+    ordinary tag other than Pixel Data (excludes SequenceUnderNonSqTag), offset-table entries and
+    fragments fit 32 bits; and [delim_ok] (the dictionary does not call the item delimiter a sequence).
+    Transfer syntaxes: [c] ranges over Implicit VR LE, Explicit VR LE, Explicit VR BE (Deflated Explicit
+    VR LE reduces to ELE in C01 under the compressor's round-trip hypothesis); default length strategy. *)
+Theorem C13_readback : forall dict ops o c d es,
+  wfo o = true -> kind_ok o = true ->
+  OpsRoundTripP.tr_obj (apply_all dict ops o) es ->
+  ReadStepsP.delim_ok c d -> Forall (OpsRoundTripP.values_ok c d) es ->
+  exists b, Writer.write_dataset c false false es = Ok b /\
+            Reader.read_dataset c d b = Ok (map (BuildTreeP.norm_tree c d) es).
+Proof. exact OpsRoundTripP.ops_readback. Qed.
+
+(** Non-vacuity of [C13_readback]: (0008,1140)[0].(0010,0010) SetStr "A^B" on the empty object gives a
+    nested object whose translation meets every hypothesis in Explicit VR LE. *)
+Example C13_readback_nonvacuous :
+  wfo [] = true /\ kind_ok [] = true /\
+  OpsRoundTripP.tr_obj (apply_all OpsRoundTripP.ex_dict OpsRoundTripP.ex_ops []) OpsRoundTripP.ex_es /\
+  ReadStepsP.delim_ok Vr.ELE (fun _ => None) /\ Forall (OpsRoundTripP.values_ok Vr.ELE (fun _ => None)) OpsRoundTripP.ex_es.
+Proof.
+  split; [reflexivity|]. split; [reflexivity|]. split; [exact OpsRoundTripP.ex_reachable|]. split; [reflexivity|exact OpsRoundTripP.ex_values_ok].
+Qed.
 
 (** Non-vacuity: a history from the empty object with nested creation, private and unknown tags. *)
 Definition ex_ops : list op :=
@@ -96,6 +123,12 @@ Check C13_refines_history : forall dict ops o, wfo o = true ->
   apply_all dict ops o = spec_all dict ops o.
 Check C13_fail_no_effect : forall dict o x, wfo o = true ->
   fst (apply dict o x) <> Ok tt -> snd (apply dict o x) = o.
+Check C13_readback : forall dict ops o c d es,
+  wfo o = true -> kind_ok o = true ->
+  OpsRoundTripP.tr_obj (apply_all dict ops o) es ->
+  ReadStepsP.delim_ok c d -> Forall (OpsRoundTripP.values_ok c d) es ->
+  exists b, Writer.write_dataset c false false es = Ok b /\
+            Reader.read_dataset c d b = Ok (map (BuildTreeP.norm_tree c d) es).
 Check C13_frame : forall dict o x t, t <> root_tag x -> get (snd (apply dict o x)) t = get o t.
 Check C13_writable_no_panic : forall dict ops o, kind_ok o = true ->
   kind_ok (apply_all dict ops o) = true /\ tokens_panic (apply_all dict ops o) = false.
@@ -108,3 +141,4 @@ Print Assumptions C13_no_panic.
 Print Assumptions C13_writable_no_panic.
 Print Assumptions C13_shape_outside_known.
 Print Assumptions C13_shape_refuted.
+Print Assumptions C13_readback.
